@@ -162,12 +162,24 @@ theorem reset_not_skipped_when_transactional (db : DB) (hr : db.reset = .rollbac
     (db.checkin false).raw.working = db.committed ∧ (db.checkin false).raw.saves = [] := by
   simp [DB.checkin, hr, DB.skipsRollback, ha, takeFault_nil _ _ hf, DB.rollback]
 
+/-- **checkin_clean_skip_partial**: for EVERY engine configuration — with or without
+    `skip_autocommit_rollback` — returning a connection leaves the pool clean PROVIDED that a
+    DBAPI connection which is in driver-level autocommit has nothing pending (no transaction
+    opened by SQL): that is the assumption under which skipping the ROLLBACK is sound.
+    `skip_autocommit_savepoint_counterexample` below shows a reachable state in which it
+    fails (known finding F24). -/
+theorem checkin_clean_skip_partial (db : DB) (b : Bool) (hrs : db.reset ≠ .none)
+    (hb : b = true → HeldClean db) (hauto : db.skipsRollback = true → HeldClean db)
+    (hc : PoolClean db) (hi : HeldIso db) :
+    PoolClean (db.checkin b) :=
+  (checkin_clean_gen db b hrs hauto hb hc hi).1
+
 /-- with the option the invariant does NOT hold for every history: a SAVEPOINT opened while
     the DBAPI connection is in driver-level autocommit survives close() — the rollback is
     skipped by the dialect, and close() tells the pool that the transaction was reset (on
     SQLite the SAVEPOINT starts a transaction even in autocommit mode: the next user of the
-    pooled connection inherits and may commit it; reproduced on the real code, see the
-    report) -/
+    pooled connection inherits and may commit it; known finding F24
+    `skip-autocommit-rollback:savepoint-open-at-close`, replayed on the real code) -/
 theorem skip_autocommit_savepoint_counterexample :
     ¬ PoolClean ((Conn.connect (DB.init .rollback .none [] none true)).run
         [.autocommit, .beginNested, .exec (.ins 1), .close]).db := by
